@@ -27,6 +27,8 @@ def check(ctx):
     if inner is None:
         raise AnalysisError('run_timeout._inner_run vanished')
     ctx.touch(inner)
+    # statements moved into a void private helper are seen in place (extract-method invariance of the path rules)
+    inner = inlined_view(ctx.prog, inner)
     cfg = build_cfg(inner)
     sl = Slice(inner)
     # --- the injected thread identity
@@ -38,7 +40,9 @@ def check(ctx):
         return
     call = [c for c in ast.walk(inj[0].ast) if isinstance(c, ast.Call) and call_name(c) == 'PyThreadState_SetAsyncExc'][0]
     ident_expr = call.args[0] if call.args else None
-    names = {x.id for x in ast.walk(ident_expr) if isinstance(x, ast.Name)} if ident_expr is not None else set()
+    ident_text = norm(expand_locals(inner, ident_expr)) if ident_expr is not None else ''
+    names = {x.id for d_ in range(4) for x in ast.walk(expand_locals(inner, ident_expr, depth=d_))
+             if isinstance(x, ast.Name)} if ident_expr is not None else set()
     bad_direct = any(isinstance(c, ast.Call) and call_name(c) in ('get_ident', 'current_thread', 'main_thread',
                                                                   'get_native_id')
                      for c in ast.walk(ident_expr)) if ident_expr is not None else True
@@ -46,16 +50,17 @@ def check(ctx):
     detail = f'identity expression: {short(ident_expr)}'
     for nm, v, how, d in sl.origins(ident_expr, inj[0]) if ident_expr is not None else []:
         if v is not None and isinstance(v, ast.Call) and call_name(v) == 'apply' and v.args and \
-                isinstance(v.args[0], ast.Lambda) and 'current_thread' in norm(v.args[0].body) and \
+                ((isinstance(v.args[0], ast.Lambda) and 'current_thread' in norm(v.args[0].body)) or
+                 norm(v.args[0]).split('.')[-1] == 'current_thread') and \
                 isinstance(v.func, ast.Attribute) and norm(v.func.value) == 'pool':
             from_worker = True
             detail += f'; `{nm}` = {short(v)}'
     ctx.ob(rule, fkey(inner, rule, 'interrupt-addressed-to-worker'), from_worker and not bad_direct and
-           '.ident' in norm(ident_expr), f'{inner.module.relpath}:{inj[0].lineno}',
+           '.ident' in ident_text, f'{inner.module.relpath}:{inj[0].lineno}',
            'the asynchronous exception is sent to the ident of the thread object returned by '
            'pool.apply(lambda: threading.current_thread()) - the worker - and not to an identity evaluated in the '
            'calling thread (which would interrupt the caller)', detail)
-    exc = call.args[1] if len(call.args) > 1 else None
+    exc = expand_locals(inner, call.args[1]) if len(call.args) > 1 else None
     ctx.ob(rule, fkey(inner, rule, 'interrupt-is-keyboardinterrupt'), exc is not None and
            'KeyboardInterrupt' in norm(exc), f'{inner.module.relpath}:{inj[0].lineno}',
            'the injected exception is KeyboardInterrupt (a BaseException: not swallowed by `except Exception` in the '
